@@ -41,13 +41,45 @@ def replay_exec(ctx, tag, records, engines, pair=None, claim=None, timeout_ms=20
     with open(path, "w") as f:
         for r in records:
             f.write(json.dumps(r) + "\n")
-    rep_path = os.path.join(ctx.workdir, f"{tag}.report.json")
-    args = ["replay", "--cases", path, "--engines", ",".join(engines), "--report", rep_path,
-            "--timeout-ms", str(timeout_ms), "--max-fail", "400"]
-    if pair:
-        args += ["--pair", pair]
-    rv(args, timeout=3000)
-    rep = json.load(open(rep_path))
+    # the harness replays one case at a time (each in a forked child): large case sets are split
+    # over several harness processes.  Records of one case (several admissible outcomes) stay together.
+    from concurrent.futures import ThreadPoolExecutor
+    nshards = 1 if len(records) < 2000 else 6
+    shards = [[] for _ in range(nshards)]
+    where = {}
+    for r in records:
+        key = json.dumps([r["case"]["fam"], r["case"]["id"], r["case"]["vm"]])
+        if key not in where:
+            where[key] = len(where) % nshards
+        shards[where[key]].append(r)
+
+    def one(k):
+        sp = os.path.join(ctx.workdir, f"{tag}.cases.{k}.ndjson") if nshards > 1 else path
+        if nshards > 1:
+            with open(sp, "w") as f:
+                for r in shards[k]:
+                    f.write(json.dumps(r) + "\n")
+        rp = os.path.join(ctx.workdir, f"{tag}.report.{k}.json")
+        args = ["replay", "--cases", sp, "--engines", ",".join(engines), "--report", rp,
+                "--timeout-ms", str(timeout_ms), "--max-fail", "400"]
+        if pair:
+            args += ["--pair", pair]
+        rv(args, timeout=6000)
+        return json.load(open(rp))
+
+    with ThreadPoolExecutor(max_workers=nshards) as ex:
+        reps = list(ex.map(one, [k for k in range(nshards) if shards[k]]))
+    rep = reps[0]
+    for other in reps[1:]:
+        for k in ("pass", "runs", "cases", "fail"):
+            rep[k] += other[k]
+        if "disagreements_checked" in rep or "disagreements_checked" in other:
+            rep["disagreements_checked"] = rep.get("disagreements_checked", 0) + other.get("disagreements_checked", 0)
+        for k in ("skipped", "known", "per_engine"):
+            for kk, n in other.get(k, {}).items():
+                rep.setdefault(k, {})[kk] = rep.get(k, {}).get(kk, 0) + n
+        rep["failures"] += other["failures"]
+        rep["samples"] += other["samples"]
     ctx.traces += rep["pass"]
     ctx.evaluations += rep["runs"]
     ctx.programs += rep["cases"]
